@@ -57,8 +57,10 @@ type vop struct {
 	resetTo  uint64
 	fs       *fsPlan
 	swept    bool
-	declOnly bool       // registered for continuations only, never performed by the victim
-	base     *dbm.MemDB // store before the operation (swept ops only)
+	declOnly bool         // registered for continuations only, never performed by the victim
+	alt      *types.Block // a competing block at the same height on the same parent
+	altOps   []int        // op indices of [ResetTo(parent height), AddBlock(alt)], declared lazily
+	base     *dbm.MemDB   // store before the operation (swept ops only)
 	events   []crashdb.Event
 	h0       uint64          // head height before
 	allowed  map[uint64]bool // property's allowed restart heights
@@ -208,9 +210,46 @@ type stream struct {
 	ref    *chainfx.Node
 	// kind fork: the first proposer (stays on the abandoned branch), one more block of that branch (fed to a node that
 	// restarts on its tip: the never-switched reference accepts it), and whether the abandoned range changes the identity state
+	alt                     map[int]*types.Block // kinds mixed / retention: a competing block on the same parent as main[i] (another proposal)
 	mainNode                *chainfx.Node
 	mainNext                *types.Block
 	abandonedIdentityUpdate bool
+}
+
+// altProposer follows the reference stream on a second replica of the proposer and, for the swept indices, proposes a
+// COMPETING block on the same parent (its own transaction, a later proposer time) before it adopts the reference block.
+type altProposer struct {
+	n  *chainfx.Node
+	sn *chainfx.Sender
+	w  *chainfx.World
+}
+
+func newAltProposer(w *chainfx.World) (*altProposer, error) {
+	n, err := w.StartNode(nil, 0, false)
+	if err != nil {
+		return nil, err
+	}
+	return &altProposer{n: n, sn: chainfx.NewSender(w), w: w}, nil
+}
+
+func (a *altProposer) follow(st *stream, idx int, blk *types.Block, want bool) error {
+	if want {
+		u := 2 + idx%5
+		to := a.w.Addrs[0]
+		a.sn.Send(a.n, u, &types.Transaction{Type: types.SendTx, To: &to, Amount: chainfx.Dna(int64(1 + idx%7))})
+		chainfx.Advance(time.Second)
+		if p, err := a.n.Propose(); err == nil && p.Block.Hash() != blk.Hash() && p.Block.Root() != blk.Root() {
+			if st.alt == nil {
+				st.alt = map[int]*types.Block{}
+			}
+			st.alt[idx] = p.Block
+		}
+	}
+	cb, _ := chainfx.CloneBlock(blk)
+	if err := a.n.Add(cb); err != nil {
+		return fmt.Errorf("alt proposer cannot follow block %d: %v", blk.Height(), err)
+	}
+	return nil
 }
 
 func tweakFor(kind string) func(*config.Config) {
@@ -242,14 +281,21 @@ func buildStream(cs c09case, quick bool) (*stream, error) {
 		}
 		st.ref = h.N
 		n := 13 + r.Intn(4)
+		st.window = [2]int{n - 7, n - 2}
+		ap, err := newAltProposer(w)
+		if err != nil {
+			return nil, err
+		}
 		for b := 1; b <= n; b++ {
 			blk, err := step(h, b)
 			if err != nil {
 				return nil, err
 			}
 			st.main = append(st.main, blk)
+			if err := ap.follow(st, b-1, blk, b-1 >= st.window[0] && b-1 < st.window[1]); err != nil {
+				return nil, err
+			}
 		}
-		st.window = [2]int{n - 7, n - 2}
 	case "retention":
 		h, err := chainfx.Bootstrap(w, chainfx.HistoryOpts{TxPerBlock: 2}, r, false)
 		if err != nil {
@@ -257,15 +303,22 @@ func buildStream(cs c09case, quick bool) (*stream, error) {
 		}
 		st.ref = h.N
 		n := 105
+		// heights = index+2 (genesis is height 1): versions pass 100 at index 99
+		st.window = [2]int{98, 102}
+		ap, err := newAltProposer(w)
+		if err != nil {
+			return nil, err
+		}
 		for b := 1; b <= n; b++ {
 			blk, err := step(h, b)
 			if err != nil {
 				return nil, err
 			}
 			st.main = append(st.main, blk)
+			if err := ap.follow(st, b-1, blk, b-1 >= st.window[0] && b-1 < st.window[1]); err != nil {
+				return nil, err
+			}
 		}
-		// heights = index+2 (genesis is height 1): versions pass 100 at index 99
-		st.window = [2]int{98, 102}
 	case "epoch":
 		st.attach = true
 		h, err := chainfx.Bootstrap(w, chainfx.HistoryOpts{ShortEpochs: true, TxPerBlock: 3}, r, true)
@@ -653,8 +706,11 @@ func runScenario(c *hx.Ctx, cs c09case) error {
 			s.ops = append(s.ops, &vop{kind: "ins", blk: b, declOnly: true})
 		}
 	default:
-		for _, b := range st.main {
-			s.ops = append(s.ops, &vop{kind: "ins", blk: b})
+		for i, b := range st.main {
+			s.ops = append(s.ops, &vop{kind: "ins", blk: b, alt: st.alt[i]})
+			if st.alt[i] != nil {
+				s.known[st.alt[i].Hash()] = st.alt[i]
+			}
 		}
 	}
 	for i, o := range s.ops {
@@ -967,7 +1023,210 @@ func (s *scen) oneCut(i int, o *vop, k int, hole int) {
 	if got := endState(n); got != s.refEnd {
 		s.fail("C09:end-differs", fmt.Sprintf("%s cut after %d of %d writes (next write: %s): after continuing with the same blocks the node is at %s, the never-crashed replica at %s",
 			o.descr, k, len(o.events), class, got, s.refEnd), i, k, class)
+		return
 	}
+	where := fmt.Sprintf("%s cut after %d of %d writes (next write: %s), restart at height %d, continuation with the reference blocks", o.descr, k, len(o.events), class, head.Height())
+	if hole == 0 {
+		if msg := s.indexCheck(n); msg != "" {
+			s.fail("C09:block-index-incomplete", where+": "+msg, i, k, class)
+			return
+		}
+	}
+	if msg := s.laterResets(n); msg != "" {
+		s.fail("C09:later-reset-fails", where+": "+msg, i, k, class)
+		return
+	}
+	if hole > 0 {
+		return
+	}
+	// a COMPETING block at the interrupted height (another proposal on the same parent) arrives as a one-block fork:
+	// ResetTo(parent height) + AddBlock — on a second restart of the same surviving store
+	if o.kind == "ins" && o.alt != nil {
+		s.competing(i, o, k, class)
+	}
+	// an interrupted ResetTo, then the node syncs its OWN former branch again (the same blocks), then the fork switch
+	if o.kind == "reset" && s.onTgt[head.Hash()] && head.Height() == o.resetTo {
+		var p []int
+		for j := 0; j < s.resetIdx; j++ {
+			if s.ops[j].kind == "ins" && !s.ops[j].declOnly && s.ops[j].blk.Height() > head.Height() {
+				p = append(p, j)
+			}
+		}
+		for j := s.resetIdx; j < len(s.ops); j++ {
+			if !s.ops[j].declOnly {
+				p = append(p, j)
+			}
+		}
+		s.altCont(i, o, k, class, p, "re-sync of the node's own former branch (the same blocks again), then the fork switch", s.refEnd)
+	}
+}
+
+// expectedChain: hash per height of the chain the node's head is on, following parent hashes through the known blocks.
+func (s *scen) expectedChain(n *chainfx.Node) map[uint64]common.Hash {
+	exp := map[uint64]common.Hash{}
+	cur, ok := s.known[n.Chain.Head.Hash()]
+	for ok {
+		exp[cur.Height()] = cur.Hash()
+		cur, ok = s.known[cur.Header.ParentHash()]
+	}
+	return exp
+}
+
+// indexCheck: every block of the node's chain must be found by height and by hash (header record), as on the reference.
+func (s *scen) indexCheck(n *chainfx.Node) string {
+	for h, want := range s.expectedChain(n) {
+		hdr := n.Chain.GetBlockHeaderByHeight(h)
+		if hdr == nil {
+			can := n.Chain.FxRepo().ReadCanonicalHash(h)
+			return fmt.Sprintf("GetBlockHeaderByHeight(%d) = nil although the head is at %d (canonical hash %x, header record present: %v)", h, n.Chain.Head.Height(), can[:4], n.Chain.FxRepo().ReadBlockHeader(want) != nil)
+		}
+		if hdr.Hash() != want {
+			return fmt.Sprintf("GetBlockHeaderByHeight(%d) is block %x, the chain of the head has %x there", h, hdr.Hash().Bytes()[:4], want.Bytes()[:4])
+		}
+		if n.Chain.FxRepo().ReadBlockHeader(want) == nil {
+			return fmt.Sprintf("the header record of the canonical block of height %d is missing", h)
+		}
+	}
+	return ""
+}
+
+// laterResets: a later ResetTo to retained heights below the head must work (descending, up to three of them).
+func (s *scen) laterResets(n *chainfx.Node) string {
+	exp := s.expectedChain(n)
+	ret := retained(n, n.Chain.Head.Height())
+	done := 0
+	for h := n.Chain.Head.Height() - 1; h >= 2 && done < 3; h-- {
+		if !ret[h] {
+			break
+		}
+		var err error
+		func() {
+			defer func() {
+				if r := recover(); r != nil {
+					err = fmt.Errorf("panic: %v", r)
+				}
+			}()
+			_, err = n.Chain.ResetTo(h)
+		}()
+		if err != nil {
+			return fmt.Sprintf("a later ResetTo(%d) (retained height, head %d) fails: %v", h, n.Chain.Head.Height(), firstLine(err.Error()))
+		}
+		if want, ok := exp[h]; ok && (n.Chain.Head.Hash() != want || n.Chain.Head.Root() != n.App.State.Root()) {
+			return fmt.Sprintf("after a later ResetTo(%d) the head is %x at height %d (expected %x) / roots match: %v", h, n.Chain.Head.Hash().Bytes()[:4], n.Chain.Head.Height(), want.Bytes()[:4], n.Chain.Head.Root() == n.App.State.Root())
+		}
+		done++
+	}
+	return ""
+}
+
+// altCont: a second restart on the same surviving store followed by another plan; returns the node (nil after a failure).
+func (s *scen) altCont(i int, o *vop, k int, class string, plan []int, label, wantEnd string) {
+	c := s.c
+	store := crashdb.Snapshot(o.base)
+	crashdb.Apply(store, o.events[:k])
+	rs := s.restart(store)
+	if rs.err != nil {
+		return // reported by the first restart
+	}
+	n := rs.n
+	defer n.Chain.C09Release()
+	h0 := n.Chain.Head.Height()
+	where := fmt.Sprintf("%s cut after %d of %d writes (next write: %s), restart at height %d, then %s", o.descr, k, len(o.events), class, h0, label)
+	contOp := fmt.Sprintf("cont %d %d", i, k)
+	for _, j := range plan {
+		contOp += fmt.Sprint(" ", j)
+	}
+	var ws []string
+	for _, j := range plan {
+		if s.ops[j].kind == "reset" {
+			if msg := s.indexCheck(n); msg != "" {
+				c.Line(contOp, "index-incomplete")
+				s.fail("C09:block-index-incomplete", where+": before "+s.ops[j].descr+": "+msg, i, k, class)
+				return
+			}
+		}
+		ev, err := s.runOp(n, rs.cdb, s.ops[j])
+		if err != nil {
+			c.Line(contOp, fmt.Sprintf("err@%d", j))
+			s.fail("C09:continue-rejected", fmt.Sprintf("%s: %s failed: %v", where, s.ops[j].descr, firstLine(err.Error())), i, k, class)
+			return
+		}
+		ws = append(ws, joinOrDash(primaryClasses(ev)))
+	}
+	eh := n.Chain.Head
+	c.Line(contOp, fmt.Sprintf("end head=%d:%d sv=%d iv=%d w=%s", eh.Height(), s.hid(eh.Hash()), n.App.State.Version(), n.App.IdentityState.Version(), strings.Join(ws, "|")))
+	if got := endState(n); got != wantEnd {
+		s.fail("C09:end-differs", fmt.Sprintf("%s: the node is at %s, a clean node at %s", where, got, wantEnd), i, k, class)
+		return
+	}
+	if msg := s.indexCheck(n); msg != "" {
+		s.fail("C09:block-index-incomplete", where+": "+msg, i, k, class)
+		return
+	}
+	if msg := s.laterResets(n); msg != "" {
+		s.fail("C09:later-reset-fails", where+": "+msg, i, k, class)
+	}
+	c.Hit("alt-continuation:" + strings.SplitN(label, " ", 2)[0])
+}
+
+// competing: ResetTo(parent height) + AddBlock(competing block) after a restart of the cut store.
+func (s *scen) competing(i int, o *vop, k int, class string) {
+	c := s.c
+	alt := o.alt
+	parent := alt.Height() - 1
+	store := crashdb.Snapshot(o.base)
+	crashdb.Apply(store, o.events[:k])
+	rs := s.restart(store)
+	if rs.err != nil {
+		return
+	}
+	n := rs.n
+	defer n.Chain.C09Release()
+	h0 := n.Chain.Head.Height()
+	where := fmt.Sprintf("%s cut after %d of %d writes (next write: %s), restart at height %d, then a competing block %x of height %d arrives as a fork (ResetTo(%d) + AddBlock)",
+		o.descr, k, len(o.events), class, h0, alt.Hash().Bytes()[:4], alt.Height(), parent)
+	ops := []*vop{{kind: "reset", resetTo: parent, descr: fmt.Sprintf("ResetTo %d", parent)}, {kind: "ins", blk: alt, declOnly: true, descr: fmt.Sprintf("AddBlock competing block of height %d", alt.Height())}}
+	var ws []string
+	var ferr error
+	failedAt := -1
+	for x, op := range ops {
+		ev, err := s.runOp(n, rs.cdb, op)
+		if err != nil {
+			ferr, failedAt = err, x
+			break
+		}
+		ws = append(ws, joinOrDash(primaryClasses(ev)))
+	}
+	// declare the two operations to the model once (the identity-diff flag of the competing block is known only now)
+	if o.altOps == nil {
+		diff := ferr == nil && n.Chain.FxRepo().ReadIdentityStateDiff(alt.Height()) != nil
+		o.altOps = []int{len(s.ops), len(s.ops) + 1}
+		ops[0].declOnly = true
+		s.ops = append(s.ops, ops[0], ops[1])
+		c.Line(fmt.Sprintf("decl reset %d", parent), "ok")
+		c.Line("decl "+s.insLine(alt, diff, false, nil), "ok")
+	}
+	contOp := fmt.Sprintf("cont %d %d %d %d", i, k, o.altOps[0], o.altOps[1])
+	if ferr != nil {
+		c.Line(contOp, fmt.Sprintf("err@%d", o.altOps[failedAt]))
+		s.fail("C09:competing-block-refused", fmt.Sprintf("%s: %s failed: %v (a clean node at the same head accepts this block)", where, ops[failedAt].descr, firstLine(ferr.Error())), i, k, class)
+		return
+	}
+	eh := n.Chain.Head
+	c.Line(contOp, fmt.Sprintf("end head=%d:%d sv=%d iv=%d w=%s", eh.Height(), s.hid(eh.Hash()), n.App.State.Version(), n.App.IdentityState.Version(), strings.Join(ws, "|")))
+	bad := ""
+	if eh.Hash() != alt.Hash() || n.App.State.Root() != alt.Root() || n.App.IdentityState.Root() != alt.IdentityRoot() {
+		bad = fmt.Sprintf("head %x, state root %x, identity root %x; the block has %x / %x / %x", eh.Hash().Bytes()[:4], n.App.State.Root().Bytes()[:4], n.App.IdentityState.Root().Bytes()[:4], alt.Hash().Bytes()[:4], alt.Root().Bytes()[:4], alt.IdentityRoot().Bytes()[:4])
+	} else if cs, err := n.App.ForCheck(alt.Height()); err != nil {
+		bad = fmt.Sprintf("the stored state of height %d cannot be loaded: %v", alt.Height(), firstLine(err.Error()))
+	} else if cs.State.Root() != alt.Root() || cs.IdentityState.Root() != alt.IdentityRoot() {
+		bad = fmt.Sprintf("the STORED state of height %d has roots %x / %x, the accepted block %x / %x (the next block will be refused)", alt.Height(), cs.State.Root().Bytes()[:4], cs.IdentityState.Root().Bytes()[:4], alt.Root().Bytes()[:4], alt.IdentityRoot().Bytes()[:4])
+	}
+	if bad != "" {
+		s.fail("C09:competing-block-wrong-state", where+": accepted, but "+bad, i, k, class)
+		return
+	}
+	c.Hit("alt-continuation:competing-block")
 }
 
 // refDiff: does the reference node hold a non-empty identity diff for the height (on the target chain)?
